@@ -411,12 +411,12 @@ package grpc
 
 //@ import balancer "google.golang.org/grpc/balancer"
 
-//@ monitor csAttempt.mu protects finished
-
 //@ func (*csAttempt).finish
 //@   prop C23
+//@   opt atomic mu
 //@   requires a != nil
-//@   assert at return 1 ncalls("Done") == 0 && ncalls("Close") == 0 && ncalls("HandleRPC") == 0
+//@   assert at return 1 old(a.finished) && ncalls("Done") == 0 && ncalls("Close") == 0 && ncalls("HandleRPC") == 0
+//@   assert at return end !old(a.finished)
 //@   assert at call Close#1 a.finished && ncalls("Done") == 0
 //@   assert at call Done#1 ncalls("Done") == 0 && arg0.Err == err && implies(old(err) == io.EOF, arg0.Err == nil)
 //@   assert at return end ncalls("Done") <= 1
@@ -443,6 +443,7 @@ package grpc
 //@   requires pw != nil
 //@   loop 1 invariant pw != nil
 //@   assert at call Pick#1 ch == pg.blockingCh && p == pg.picker && p != nil && recv == p
+//@   assert at call Pick#1 athead(ch) != pg.blockingCh
 //@   assert at call getReadyTransport#1 ok && arg0 == acbw.ac && ncalls("Done") == athead(ncalls("Done"))
 //@   assert at call Done#2 ncalls("Done") == athead(ncalls("Done")) && lastret("getReadyTransport") == 0
 //@   assert at call V#1 lastret("getReadyTransport") == 0
